@@ -16,9 +16,21 @@ correspondence.  All statements hold over every linearly ordered field, so both 
   distance to that span;
 * `node_values`, `continuous_at_nodes`: `p_j(x_k) = δ_jk`, and the polynomial pieces below and
   above a node agree there, so a requested `x` on a node gives the limit of displaced `x`;
-* `partition_of_unity`, `support`.
+* `partition_of_unity`, `support`;
+* **convergence** (the clause that was only observed before): `interpolation_error_bound` — for
+  *any* PDF the interpolation error at `t` is at most `(1 + Λ(t))` times the distance of the PDF to
+  the polynomials of degree ≤ d on the block of `t` (Lebesgue bound, any ordered field);
+  `lebesgue_function_bounded` — `Λ(t) ≤ (d+1)(d·hmax/hmin)^(d+1)` for every quasi-uniform grid,
+  *independently of the number of nodes*; `two_grids_within_accuracy`; and over `ℝ`
+  `refinement_converges` / `log_grid_refinement_converges`: for a PDF whose (d+1)-th derivative in
+  the grid variable is bounded by `M`, the error is at most
+  `(1 + (d+1)(dρ)^(d+1)) · M (d·hmax)^(d+1) / d!` (`ρ ≥ hmax/hmin`), i.e. `O(hmax^(d+1))` as the
+  grid is refined at bounded mesh ratio, and it vanishes when the degree exceeds that of a
+  polynomial PDF.
 -/
 import YadismModel.Lemmas.Interp
+import YadismModel.Lemmas.InterpError
+import YadismModel.Lemmas.InterpTaylor
 import Mathlib.Analysis.SpecialFunctions.Log.Basic
 import Mathlib.Algebra.Module.LinearMap.Defs
 
@@ -125,6 +137,123 @@ theorem log_grid_reproduces (x : Nat → ℝ) (hpos : ∀ i, 0 < x i) (hx : Stri
   have hz : 0 < z := lt_of_lt_of_le (hpos 0) h0
   exact reproduces_polynomials (fun i => Real.log (x i)) hmono n d hd hn q hq (Real.log z)
     (Real.log_le_log (hpos 0) h0) (Real.log_le_log hz h1)
+
+
+/-! ## Convergence under refinement -/
+
+/-- **Lebesgue bound** (any grid, any degree, any PDF `f`, any ordered field) -/
+theorem interpolation_error_bound (xs : Nat → K) (hxs : StrictMono xs) (n d : Nat) (hd : 1 ≤ d) (hn : d + 1 ≤ n)
+    (f : K → K) (q : K[X]) (hq : q.natDegree ≤ d) (t ε : K) (ht0 : xs 0 ≤ t) (ht1 : t ≤ xs (n - 1))
+    (hnodes : ∀ j, j < n → basis xs n d j t ≠ 0 → |f (xs j) - q.eval (xs j)| ≤ ε)
+    (hpt : |f t - q.eval t| ≤ ε) :
+    |interpolant xs (fun j => f (xs j)) n d t - f t| ≤ (1 + lebesgue xs n d t) * ε :=
+  interp_error_le xs hxs n d hd hn f q hq t ε ht0 ht1 hnodes hpt
+
+/-- the Lebesgue function of a quasi-uniform grid is bounded independently of its size -/
+theorem lebesgue_function_bounded (xs : Nat → K) (hxs : StrictMono xs) (n d : Nat) (hd : 1 ≤ d) (hn : d + 1 ≤ n)
+    (hmin hmax : K) (hmin0 : 0 < hmin)
+    (hlo : ∀ s, s + 1 < n → hmin ≤ xs (s + 1) - xs s) (hhi : ∀ s, s + 1 < n → xs (s + 1) - xs s ≤ hmax)
+    (t : K) (h0 : xs 0 < t) (h1 : t ≤ xs (n - 1)) :
+    lebesgue xs n d t ≤ ((d : K) + 1) * ((d : K) * hmax / hmin) ^ (d + 1) := by
+  obtain ⟨i, hi, hi1, hi2⟩ := exists_interval xs n t h0 h1
+  exact lebesgue_le xs hxs n d hd hn hmin hmax hmin0 hlo hhi i hi t hi1 hi2
+
+/-- **two adequate grids agree within the interpolation accuracy**: if the PDF is within `εx`
+(resp. `εy`) of a polynomial of admissible degree on the relevant nodes of each grid, the two
+interpolants differ by at most the sum of the two Lebesgue bounds -/
+theorem two_grids_within_accuracy (xs ys : Nat → K) (hxs : StrictMono xs) (hys : StrictMono ys)
+    (n d m e : Nat) (hd : 1 ≤ d) (hn : d + 1 ≤ n) (he : 1 ≤ e) (hm : e + 1 ≤ m)
+    (f : K → K) (q r : K[X]) (hq : q.natDegree ≤ d) (hr : r.natDegree ≤ e) (t εx εy : K)
+    (hx0 : xs 0 ≤ t) (hx1 : t ≤ xs (n - 1)) (hy0 : ys 0 ≤ t) (hy1 : t ≤ ys (m - 1))
+    (hxn : ∀ j, j < n → basis xs n d j t ≠ 0 → |f (xs j) - q.eval (xs j)| ≤ εx) (hxt : |f t - q.eval t| ≤ εx)
+    (hyn : ∀ j, j < m → basis ys m e j t ≠ 0 → |f (ys j) - r.eval (ys j)| ≤ εy) (hyt : |f t - r.eval t| ≤ εy) :
+    |interpolant xs (fun j => f (xs j)) n d t - interpolant ys (fun j => f (ys j)) m e t|
+      ≤ (1 + lebesgue xs n d t) * εx + (1 + lebesgue ys m e t) * εy := by
+  have h1 := interpolation_error_bound xs hxs n d hd hn f q hq t εx hx0 hx1 hxn hxt
+  have h2 := interpolation_error_bound ys hys m e he hm f r hr t εy hy0 hy1 hyn hyt
+  have : interpolant xs (fun j => f (xs j)) n d t - interpolant ys (fun j => f (ys j)) m e t
+      = (interpolant xs (fun j => f (xs j)) n d t - f t) - (interpolant ys (fun j => f (ys j)) m e t - f t) := by
+    ring
+  rw [this]
+  exact le_trans (abs_sub _ _) (add_le_add h1 h2)
+
+/-- **convergence under refinement, with its rate**: a PDF `f` (as a function of the grid
+variable) with `(d+1)`-th derivative bounded by `M`, a grid whose spacings lie in `[hmin, hmax]`
+with `hmax ≤ ρ·hmin`: at every `t` inside the grid the interpolant is within
+`(1 + (d+1)(dρ)^(d+1)) · M (d·hmax)^(d+1) / d!` of `f(t)` -/
+theorem refinement_converges (xs : Nat → ℝ) (hxs : StrictMono xs) (n d : Nat) (hd : 1 ≤ d) (hn : d + 1 ≤ n)
+    (f : ℝ → ℝ) (hf : ContDiff ℝ (d + 1 : ℕ) f) (M : ℝ) (hM : ∀ y, |iteratedDeriv (d + 1) f y| ≤ M)
+    (hmin hmax ρ : ℝ) (hmin0 : 0 < hmin) (hρ : hmax ≤ ρ * hmin)
+    (hlo : ∀ s, s + 1 < n → hmin ≤ xs (s + 1) - xs s) (hhi : ∀ s, s + 1 < n → xs (s + 1) - xs s ≤ hmax)
+    (t : ℝ) (h0 : xs 0 < t) (h1 : t ≤ xs (n - 1)) :
+    |interpolant xs (fun j => f (xs j)) n d t - f t|
+      ≤ (1 + ((d : ℝ) + 1) * ((d : ℝ) * ρ) ^ (d + 1)) * (M * ((d : ℝ) * hmax) ^ (d + 1) / (Nat.factorial d)) := by
+  obtain ⟨i, hi, hi1, hi2⟩ := exists_interval xs n t h0 h1
+  have hk := kminOf_spec n d i hd hn hi
+  set k := kminOf n d i with hkdef
+  have hab : xs k < xs (k + d) := hxs (by omega)
+  obtain ⟨q, hq, hclose⟩ := exists_poly_close f d hf M hM (xs k) (xs (k + d)) hab
+  have hM0 : 0 ≤ M := le_trans (abs_nonneg _) (hM 0)
+  have hfac : (0 : ℝ) < Nat.factorial d := by exact_mod_cast Nat.factorial_pos d
+  have hspan : xs (k + d) - xs k ≤ d * hmax := span_le xs hxs hmax k d (fun s hs1 hs2 => hhi s (by omega))
+  have hspan0 : 0 ≤ xs (k + d) - xs k := by linarith
+  set ε := M * ((d : ℝ) * hmax) ^ (d + 1) / (Nat.factorial d) with hε
+  have hle : ∀ x ∈ Set.Icc (xs k) (xs (k + d)), |f x - q.eval x| ≤ ε := by
+    intro x hx
+    refine le_trans (hclose x hx) ?_
+    apply div_le_div_of_nonneg_right _ (le_of_lt hfac)
+    exact mul_le_mul_of_nonneg_left (pow_le_pow_left₀ hspan0 hspan _) hM0
+  have htk : t ∈ Set.Icc (xs k) (xs (k + d)) :=
+    ⟨le_trans (hxs.monotone (by omega)) (le_of_lt hi1), le_trans hi2 (hxs.monotone (by omega))⟩
+  have hnodes : ∀ j, j < n → basis xs n d j t ≠ 0 → |f (xs j) - q.eval (xs j)| ≤ ε := by
+    intro j _ hb
+    have hj := basis_ne_zero_in_block xs hxs n d hd hn i j hi t hi1 hi2 hb
+    exact hle _ ⟨hxs.monotone hj.1, hxs.monotone hj.2⟩
+  have hmain := interpolation_error_bound xs hxs n d hd hn f q hq t ε (le_of_lt h0) h1 hnodes (hle t htk)
+  have hΛ := lebesgue_le xs hxs n d hd hn hmin hmax hmin0 hlo hhi i hi t hi1 hi2
+  have hε0 : 0 ≤ ε := le_trans (abs_nonneg _) (hle t htk)
+  have hminmax : hmin ≤ hmax := le_trans (hlo i hi) (hhi i hi)
+  have hratio : (d : ℝ) * hmax / hmin ≤ (d : ℝ) * ρ := by
+    rw [div_le_iff₀ hmin0]
+    have : (0 : ℝ) ≤ d := Nat.cast_nonneg d
+    nlinarith
+  have hratio0 : 0 ≤ (d : ℝ) * hmax / hmin := by
+    have : (0 : ℝ) ≤ d := Nat.cast_nonneg d
+    have : 0 < hmax := lt_of_lt_of_le hmin0 hminmax
+    positivity
+  have hΛ' : lebesgue xs n d t ≤ ((d : ℝ) + 1) * ((d : ℝ) * ρ) ^ (d + 1) := by
+    refine le_trans hΛ ?_
+    apply mul_le_mul_of_nonneg_left (pow_le_pow_left₀ hratio0 hratio _)
+    have : (0 : ℝ) ≤ d := Nat.cast_nonneg d
+    linarith
+  refine le_trans hmain ?_
+  apply mul_le_mul_of_nonneg_right _ hε0
+  linarith
+
+/-- the same for a logarithmic grid: nodes `log x_i`, PDF `F(x)`, smooth as a function of `log x` -/
+theorem log_grid_refinement_converges (x : Nat → ℝ) (hpos : ∀ i, 0 < x i) (hx : StrictMono x) (n d : Nat)
+    (hd : 1 ≤ d) (hn : d + 1 ≤ n) (F : ℝ → ℝ) (hF : ContDiff ℝ (d + 1 : ℕ) (fun u => F (Real.exp u)))
+    (M : ℝ) (hM : ∀ y, |iteratedDeriv (d + 1) (fun u => F (Real.exp u)) y| ≤ M)
+    (hmin hmax ρ : ℝ) (hmin0 : 0 < hmin) (hρ : hmax ≤ ρ * hmin)
+    (hlo : ∀ s, s + 1 < n → hmin ≤ Real.log (x (s + 1)) - Real.log (x s))
+    (hhi : ∀ s, s + 1 < n → Real.log (x (s + 1)) - Real.log (x s) ≤ hmax)
+    (z : ℝ) (h0 : x 0 < z) (h1 : z ≤ x (n - 1)) :
+    |interpolant (fun i => Real.log (x i)) (fun j => F (x j)) n d (Real.log z) - F z|
+      ≤ (1 + ((d : ℝ) + 1) * ((d : ℝ) * ρ) ^ (d + 1)) * (M * ((d : ℝ) * hmax) ^ (d + 1) / (Nat.factorial d)) := by
+  have hmono : StrictMono fun i => Real.log (x i) := by
+    intro a b hab
+    exact Real.log_lt_log (hpos a) (hx hab)
+  have hz : 0 < z := lt_trans (hpos 0) h0
+  have h := refinement_converges (fun i => Real.log (x i)) hmono n d hd hn (fun u => F (Real.exp u)) hF M hM
+    hmin hmax ρ hmin0 hρ hlo hhi (Real.log z) (Real.log_lt_log (hpos 0) h0) (Real.log_le_log hz h1)
+  simpa [Real.exp_log hz, Real.exp_log (hpos _)] using h
+
+/-- non-vacuity of the convergence statement: `exp` on a uniform grid satisfies every hypothesis
+with `M = 1` on … any bound would do; here a polynomial PDF of higher degree than the interpolation
+(`t³`, degree-2 interpolation on the grid 0,1,2,3,4): the Lebesgue function and the actual error -/
+example : lebesgue (fun i => (i : Rat)) 5 2 (1/2) = 5/4
+    ∧ |interpolant (fun i => (i : Rat)) (fun j => (j : Rat) ^ 3) 5 2 (1/2) - (1/2) ^ 3| = 3/8 := by
+  decide +kernel
 
 /-! ## Non-vacuity: a concrete grid -/
 
